@@ -314,15 +314,12 @@ class Component( ComponentLevel7 ):
       top._dsl.all_named_objects -= removed_interfaces
 
       removed_consts = set()
-      if isinstance( foo, Placeholder ):
-        # No need to uncollect vars from a placeholder
-        assert not foo._dsl.consts
-      else:
-        for x in removed_components:
-          # remove consts
-          removed_consts |= x._dsl.consts
-          # uncollect variables
-          top._uncollect_vars( x )
+      # A placeholder may contain components too, so always uncollect
+      for x in removed_components:
+        # remove consts
+        removed_consts |= x._dsl.consts
+        # uncollect variables
+        top._uncollect_vars( x )
 
       saved_upblk_reads  = []
       saved_upblk_writes = []
